@@ -65,7 +65,7 @@ def point_based_value_iteration(
         else:
             horizon = value_convergence_epsilon / reward_span
             horizon = np.log(horizon) / np.log(pomdp.discount_rate)
-            horizon = int(np.ceil(horizon))
+            horizon = max(1, int(np.ceil(horizon))) # at least one backup, also when epsilon exceeds the reward span
 
     tf = pomdp.transition_matrix
     sa_rf = pomdp.state_action_reward_matrix
